@@ -9,7 +9,7 @@
 
 extern "C" {
 int ex_diffusion(const double *grid, int n, int ws, int we, const double *dcoef, double start, double end, const double *xs, int nx, double *out, double *front, double *back, char *err, int errlen);
-int ex_spline_potential(const double *grid, int n, double a, double b, double w, double d, double c1, double c2, double *eig10, char *err, int errlen);
+int ex_spline_potential(const double *grid, int n, double a, double b, double w, double d, double c1, double c2, int ws, int we, double *eig10, char *err, int errlen);
 int ex_harmonic(double *eig10, char *err, int errlen);
 int ex_hydrogen(double *eig10, char *err, int errlen);
 int ex_hydrogen_L();
@@ -86,8 +86,9 @@ struct PotC {
   std::vector<i64> jitter;      // per interior point, in 1/64 of the uniform gap
   i64 a = 4, b = 0, w = 8, d = 0;  // potential a/8 x^2 + b/8 sin(w/8 x) + d/8
   i64 c = 0, mode = 0;             // constant c/4 added before interpolation (mode 0) or as a constant spline (mode 1)
+  i64 ws = 0, we = 0;              // potential restricted to the window [ws,we) of the grid (we = 0: whole grid); forces mode 1
   template <class A>
-  void io(A &x) { x("n", n); x("half_width", half_width); x("jitter", jitter); x("a", a); x("b", b); x("w", w); x("d", d); x("c", c); x("mode", mode); }
+  void io(A &x) { x("n", n); x("half_width", half_width); x("jitter", jitter); x("a", a); x("b", b); x("w", w); x("d", d); x("c", c); x("mode", mode); x("ws", ws); x("we", we); }
 };
 static void check_potential(const PotC &c, vf::Obs &o) {
   int n = (int)std::min<i64>(41, std::max<i64>(21, c.n));
@@ -100,11 +101,15 @@ static void check_potential(const PotC &c, vf::Obs &o) {
   double a = (double)c.a / 8.0, b = (double)c.b / 8.0, w = (double)c.w / 8.0, d = (double)c.d / 8.0, cc = (double)c.c / 4.0;
   double e0[10], e1[10];
   char err[256] = {0};
-  int r0 = ex_spline_potential(g.data(), n, a, b, w, d, 0.0, 0.0, e0, err, sizeof err);
+  int ws = 0, we = n;
+  if (c.we > 0) { ws = (int)std::max<i64>(0, std::min<i64>(c.ws, n - 2)); we = (int)std::max<i64>(ws + 2, std::min<i64>(c.we, n)); }
+  bool restricted = ws > 0 || we < n;
+  if (restricted) o.cls(we < n ? "potential:ends-before-the-last-grid-point" : "potential:starts-late");
+  int r0 = ex_spline_potential(g.data(), n, a, b, w, d, 0.0, 0.0, ws, we, e0, err, sizeof err);
   VCHECK(o, r0 == 0, "spline-potential solver failed on an admissible input (rc " << r0 << "): " << err);
-  int r1 = c.mode == 0 ? ex_spline_potential(g.data(), n, a, b, w, d, cc, 0.0, e1, err, sizeof err) : ex_spline_potential(g.data(), n, a, b, w, d, 0.0, cc, e1, err, sizeof err);
+  int r1 = (c.mode == 0 && !restricted) ? ex_spline_potential(g.data(), n, a, b, w, d, cc, 0.0, ws, we, e1, err, sizeof err) : ex_spline_potential(g.data(), n, a, b, w, d, 0.0, cc, ws, we, e1, err, sizeof err);
   VCHECK(o, r1 == 0, "spline-potential solver failed on the shifted potential (rc " << r1 << "): " << err);
-  o.cls(c.mode == 0 ? "constant:before-interpolation" : "constant:as-spline");
+  o.cls((c.mode == 0 && !restricted) ? "constant:before-interpolation" : "constant:as-spline");
   o.cls("nodes:" + std::to_string(n));
   o.nt(cc != 0.0);
   double worst = 0;
@@ -173,6 +178,7 @@ int main(int argc, char **argv) {
     c.a = pick(1, 16); c.b = pick(-8, 8); c.w = pick(1, 24); c.d = pick(-16, 16);
     c.c = chance(20) ? (chance(50) ? 4000 : -4000) : pick(-400, 400);
     c.mode = pick(0, 1);
+    if (chance(45)) { c.ws = chance(50) ? 0 : pick(1, c.n / 2); c.we = chance(70) ? pick(c.ws + 3, c.n - 1) : c.n; }  // step / well / barrier potentials
     return c; }), check_potential);
   vf::add_enum_sub("harmonic-and-hydrogen",
       [](vf::Sub &s, double) {
